@@ -323,7 +323,7 @@ static void create_queues(void) {
 		if (n->kind != QK_GLOBAL && n->kind != QK_MAIN) sim_watch(n->q, 128);
 		if (n->inactive) RES.counters[QC_INACTIVE]++;
 		if (n->kind == QK_WORKLOOP) RES.counters[QC_WORKLOOPS] = 1;
-		if (n->kind == QK_MAIN) RES.counters[QC_MAINQ] = 1;
+		if (n->kind == QK_MAIN) RES.counters[QC_MAINQ] = G->dispatch_main ? 2 : 1;   /* summed: runs + again for dispatch_main runs */
 		RES.counters[QC_HIER_DEPTH_SUM] += n->depth;
 		if (G->specific && n->kind != QK_GLOBAL && n->kind != QK_MAIN && n->kind != QK_WORKLOOP) {
 			for (int k = 0; k < 4; k++) if (g_chance(1, 3)) {
@@ -685,6 +685,19 @@ static void *controller(void *arg) {
 	return NULL;
 }
 
+static void finish_counters(void) {
+	RES.counters[QC_ITEMS] = items_done;
+	RES.counters[QC_OVERLAP_READERS] = max_readers_overlap >= 2;
+	if (G->poolblock) RES.counters[QC_POOLBLOCK] = 1;
+	RES.nontrivial = (sim_st.watched_preempts > 0 || sim_st.fired[K_STALL] > 0) && items_done >= 2;
+}
+static void *finisher(void *arg) {
+	(void)arg;
+	sim_event_wait(&CTL.finished, UINT64_MAX);
+	finish_counters();
+	h_done();
+	return NULL;
+}
 void qgen_defaults(qgen *g) {
 	memset(g, 0, sizeof *g);
 	g->min_clients = 2; g->max_clients = 4; g->min_ops = 3; g->max_ops = 10;
@@ -700,6 +713,7 @@ void qprog_run(const qgen *g) {
 	gen_program();
 	for (int c = 0; c < nclients; c++) premark(client_ops[c], client_nops[c], false);
 	render_program();
+	if (G->use_main && G->dispatch_main) h_sample("(the main thread calls dispatch_main(): the main queue becomes an ordinary serial queue)\n");
 	h_announce();
 	create_queues();
 	grp = dispatch_group_create();
@@ -707,13 +721,19 @@ void qprog_run(const qgen *g) {
 	for (int c = 0; c < nclients; c++) CTL.cl[c] = sim_spawn(client_main, (void *)(intptr_t)c, "client");
 	sim_thread *ctlr = sim_spawn(controller, NULL, "controller");
 	(void)ctlr; (void)mainq_runloop_unused;
+	if (G->use_main && G->dispatch_main) {
+		// the main thread leaves through dispatch_main() while the clients are already submitting: the main queue
+		// turns into an ordinary serial queue (_dispatch_queue_cleanup2) and the rest of the run is judged from a
+		// simulated thread
+		sim_spawn(finisher, NULL, "finisher");
+		for (int k = (int)(RC.seed >> 44 & 63); k > 0; k--) sim_point();
+		h_log("main thread calls dispatch_main()");
+		dispatch_main();
+	}
 	if (G->use_main) {
 		while (!CTL.finished.set) drain_mainq(50 * MSEC);
 	} else {
 		sim_event_wait(&CTL.finished, UINT64_MAX);
 	}
-	RES.counters[QC_ITEMS] = items_done;
-	RES.counters[QC_OVERLAP_READERS] = max_readers_overlap >= 2;
-	if (G->poolblock) RES.counters[QC_POOLBLOCK] = 1;
-	RES.nontrivial = (sim_st.watched_preempts > 0 || sim_st.fired[K_STALL] > 0) && items_done >= 2;
+	finish_counters();
 }
